@@ -263,8 +263,18 @@ def r16_3(run):
     ok = bool(first) and any(is_call_to(a, 'self._maybe_callback_router') for a in node_asts(sorted(first, key=lambda n: n.lineno)[0]))
     run.ob('R16.3', rb, rb.node, 'a new "r" line first emits the previous entry', ok, slot='emit-previous', message='_router_begin does not flush the previous relay first')
     dct = [n for n in walk_unit(rb) if isinstance(n, ast.Assign) and assign_to(n, 'self._relay_attrs') is not None]
-    ok = len(dct) == 1 and isinstance(dct[0].value, ast.Call) and dotted(dct[0].value.func) == 'dict' and \
-        dict((k.arg, norm_src(k.value, dict((nm, 'args') for nm in names_defined_by(rb, lambda v: 'split()' in src(v))))) for k in dct[0].value.keywords) == {
+    def _kv(v):
+        # dict(k=e, ...) or {'k': e, ...}
+        if isinstance(v, ast.Call) and dotted(v.func) == 'dict' and not v.args:
+            return [(k.arg, k.value) for k in v.keywords]
+        if isinstance(v, ast.Dict) and all(isinstance(k, ast.Constant) for k in v.keys):
+            return [(k.value, e) for k, e in zip(v.keys, v.values)]
+        return None
+    argnames = dict((nm, 'args') for nm in names_defined_by(rb, lambda v: 'split()' in src(v) or (isinstance(v, ast.Call) and not isinstance(v.func, ast.Attribute) and 'data' in src(v))))
+    if len(dct) == 1 and _kv(dct[0].value) is None:
+        raise Undecided('_router_begin: the attribute set is built by %s' % src(dct[0].value)[:60])
+    ok = len(dct) == 1 and \
+        dict((k, norm_src(e, argnames)) for k, e in _kv(dct[0].value)) == {
             'nickname': 'args[0]', 'idhash': 'args[1]', 'orhash': 'args[2]', 'modified': "args[3] + ' ' + args[4]", 'ip': 'args[5]', 'orport': 'args[6]', 'dirport': 'args[7]'}
     run.ob('R16.3', rb, rb.node, 'an "r" line starts a fresh attribute set with the fields in dir-spec order', ok, slot='r-fields', message='_router_begin builds %s' % (src(dct[0].value)[:80] if dct else None))
     mc = run.idx.find_method(mp, '_maybe_callback_router')
